@@ -227,6 +227,47 @@ def check_c09(tier, seed):
             if not ok:
                 b.fail("C09.bounded.silent_wrong_gradient", dict(desc, x=xv.tolist(), c=cv.tolist()), why)
             b.case(desc)
+    # scenario B: the shared tensor is an *intermediate* that is mutated in place BEFORE anything is cleared; the graph
+    # read before the mutation is then back-propagated / cleared, and finally the graph built on the mutated tensor
+    mask = np.array([True, False, True])
+    muts = [
+        ("x[1:] = v", lambda x, v: x.__setitem__(slice(1, None), v[1:]), lambda xv, vv: np.concatenate([xv[:1], vv[1:]]), lambda vv: np.array([1.0, 0.0, 0.0])),
+        ("x[[0, 2]] = v[:2]", lambda x, v: x.__setitem__([0, 2], v[:2]), lambda xv, vv: np.array([vv[0], xv[1], vv[1]]), lambda vv: np.array([0.0, 1.0, 0.0])),
+        ("mg.add(v, 1.0, out=x[:2])", lambda x, v: mg.add(v[:2], 1.0, out=x[:2]), lambda xv, vv: np.array([vv[0] + 1, vv[1] + 1, xv[2]]), lambda vv: np.array([0.0, 0.0, 1.0])),
+        ("mg.multiply(x, v, where=mask, out=x)", lambda x, v: mg.multiply(x, v, where=mask, out=x), lambda xv, vv: np.where(mask, xv * vv, xv), lambda vv: np.where(mask, vv, 1.0)),
+        ("x *= v", lambda x, v: x.__imul__(v), lambda xv, vv: xv * vv, lambda vv: vv),
+        ("x[:2] *= v[:2]", lambda x, v: x[:2].__imul__(v[:2]), lambda xv, vv: np.array([xv[0] * vv[0], xv[1] * vv[1], xv[2]]), lambda vv: np.array([vv[0], vv[1], 1.0])),
+    ]
+    clears = [("L1.backward()", lambda L1, x: L1.backward()), ("L1.clear_graph()", lambda L1, x: L1.clear_graph()), ("none", lambda L1, x: None)]
+    for (mn, mut, xnew, dxnew_dx) in muts:
+        for (cn, clear) in clears:
+            wv, vv = rng.uniform(1, 2, size=(3,)), rng.uniform(1, 2, size=(3,))
+            w = mg.tensor(wv.copy())
+            v = mg.tensor(vv.copy(), constant=True)
+            x = w * 2.0
+            L1 = (x * x).sum()
+            desc = dict(scenario="intermediate mutated before clearing", mutation=mn, clearing=cn)
+            try:
+                mut(x, v)
+                L2 = (x * 3.0).sum()
+                clear(L1, x)
+            except Exception as e:
+                b.case(desc, nontrivial=False)
+                continue
+            b.count("L2.backward raises or is exact")
+            try:
+                L2.backward()
+            except InvalidBackprop:
+                b.case(desc)
+                continue
+            except Exception as e:
+                b.fail("C09.bounded.wrong_exception", desc, f"{type(e).__name__}: {e}")
+                continue
+            # recorded forward: L2 = sum(3 * xnew(2w, v))  ->  dL2/dw = 3 * d xnew/d x * 2
+            exp_w = 3.0 * dxnew_dx(vv) * 2.0
+            if w.grad is None or not close(w.grad, exp_w, rtol=1e-10, atol=1e-12):
+                b.fail("C09.bounded.silent_wrong_gradient.mutated_before_clearing", dict(desc, w=wv.tolist(), v=vv.tolist()), f"w.grad = {None if w.grad is None else w.grad.tolist()} but the recorded forward of L2 gives {exp_w.tolist()}")
+            b.case(desc)
     return b
 
 
